@@ -113,13 +113,13 @@ func matchKnown(known []KnownFinding, v *simrt.Violation) *KnownFinding {
 type WorkerResult struct {
 	From, To  int
 	Executed  int
-	Stats     *simrt.Stats      `json:"stats"`
-	Violation *simrt.Violation  `json:"violation,omitempty"`
-	Plan      json.RawMessage   `json:"plan,omitempty"`
-	PlanSeed  uint64            `json:"plan_seed,omitempty"`
-	PlanIndex int               `json:"plan_index,omitempty"`
-	LogLines  []string          `json:"log,omitempty"`
-	WallS     float64           `json:"wall_s"`
+	Stats     *simrt.Stats     `json:"stats"`
+	Violation *simrt.Violation `json:"violation,omitempty"`
+	Plan      json.RawMessage  `json:"plan,omitempty"`
+	PlanSeed  uint64           `json:"plan_seed,omitempty"`
+	PlanIndex int              `json:"plan_index,omitempty"`
+	LogLines  []string         `json:"log,omitempty"`
+	WallS     float64          `json:"wall_s"`
 }
 
 // RaceHarness is implemented by harnesses that have a race-detector stage: seeded concurrent plans run
@@ -189,6 +189,10 @@ func safeExec(h Harness, plan json.RawMessage, st *simrt.Stats, log *simrt.Log) 
 			v = simrt.Violationf(h.ID(), "host-panic", panicWhere(string(buf[:n])), -1, "panic: %v\n%s", r, string(buf[:n]))
 		}
 	}()
+	if simrt.SimSpanHook != nil {
+		simrt.SimSpanHook() // start of this plan's span
+		defer func() { st.SimTimeMs += simrt.SimSpanHook() }()
+	}
 	return h.Exec(plan, st, log)
 }
 
@@ -553,23 +557,23 @@ func writeEvidence(h Harness, o Options, st *simrt.Stats, wall time.Duration, vi
 		"seed":        int64(o.Seed & 0x7fffffffffffffff),
 		"level":       h.Level(),
 		"coverage": map[string]interface{}{
-			"evaluations":          st.Evaluations,
-			"distinct_nontrivial":  len(st.Distinct),
-			"rule":                 d.Rule,
-			"samples":              samples,
-			"exhaustive":           d.Exhaustive,
-			"simulated_runs":       st.Plans,
+			"evaluations":             st.Evaluations,
+			"distinct_nontrivial":     len(st.Distinct),
+			"rule":                    d.Rule,
+			"samples":                 samples,
+			"exhaustive":              d.Exhaustive,
+			"simulated_runs":          st.Plans,
 			"simulated_runs_per_hour": int64(float64(st.Plans) / hours),
-			"seeds":                st.Plans,
-			"operations":           st.Ops,
-			"simulated_time_s":     float64(st.SimTimeMs) / 1000.0,
-			"faults_fired":         faults,
-			"probes":               st.Probes,
-			"distinct_states":      len(st.States),
-			"components_real":      d.Real,
-			"components_stub":      d.Stub,
-			"known_findings_hit":   st.Known,
-			"instrumented":         os.Getenv("VERIF_INSTRUMENTED") == "1",
+			"seeds":                   st.Plans,
+			"operations":              st.Ops,
+			"simulated_time_s":        float64(st.SimTimeMs) / 1000.0,
+			"faults_fired":            faults,
+			"probes":                  st.Probes,
+			"distinct_states":         len(st.States),
+			"components_real":         d.Real,
+			"components_stub":         d.Stub,
+			"known_findings_hit":      st.Known,
+			"instrumented":            os.Getenv("VERIF_INSTRUMENTED") == "1",
 		},
 		"assumptions": d.Assumptions,
 		"wall_s":      wall.Seconds(),
